@@ -155,3 +155,57 @@ Proof.
   vm_compute. split; [reflexivity|]. split; [|split; reflexivity].
   eexists. eexists. split; [reflexivity|]. split; reflexivity.
 Qed.
+
+(* ---------- source level (tie C, second translator): the Gallina translation of the CURRENT Go
+   text (gen/Translated2.v, `harness translate2`) of the request-line, header-line, version and
+   number parsers returns, for EVERY []byte value (elements 0..255, length an int), normally (no
+   bounds panic, fuel suffices) and exactly what the hand models used by the theorems above return.
+   req_proj / hdr_proj / ver_proj (proofs/Translated2Ok.v) read the Go result tuple as the model's option. *)
+Require Import GoSlices Translated2 Translated2Ok.
+
+Theorem C09_source_request_line : forall l : list Z, go_bytes l -> go_fits l ->
+  exists r, g2_httpParseRequestLine l = Ok r
+            /\ req_proj r = http_parse_request_line ascii_to_int (nb l)
+            /\ (snd r = None \/ snd r = Some E_ErrMalformedRequest).
+Proof. exact src_request_line. Qed.
+Print Assumptions C09_source_request_line.
+
+Theorem C09_source_header_line : forall l : list Z, go_bytes l -> go_fits l ->
+  exists r, g2_httpParseHeaderLine l = Ok r /\ hdr_proj r = http_parse_header_line (nb l).
+Proof. exact src_header_line. Qed.
+Print Assumptions C09_source_header_line.
+
+Theorem C09_source_version : forall l : list Z, go_bytes l -> go_fits l ->
+  exists r, g2_httpParseVersion l = Ok r /\ ver_proj r = http_parse_version ascii_to_int (nb l).
+Proof. exact src_version. Qed.
+Print Assumptions C09_source_version.
+
+Theorem C09_source_number_parser : forall l : list Z, go_bytes l -> go_fits l ->
+  g2_asciiToInt l = Ok (match ascii_to_int (nb l) with
+                        | Some v => (v, None)
+                        | None => (0%Z, Some E_fmt_Errorf)
+                        end).
+Proof. exact src_number_parser. Qed.
+Print Assumptions C09_source_number_parser.
+
+Theorem C09_source_line_helpers : forall l : list Z, go_bytes l -> go_fits l ->
+  g2_btrim l = Ok (zb (btrim (nb l))) /\
+  g2_canonicalizeHeaderKey l = Ok (zb (canonicalize (nb l))) /\
+  (forall c, (0 <= c < 256)%Z ->
+     g2_bsplit3 l c = Ok (let '(x, y, z) := bsplit3 (nb l) (Z.to_N c) in (zb x, zb y, zb z))).
+Proof. exact src_line_helpers. Qed.
+Print Assumptions C09_source_line_helpers.
+
+Theorem C09_source_arith_helpers : forall a b : Z,
+  g2_min a b = Ok (Z.min a b) /\ g2_nonZero a b = Ok (if (a =? 0)%Z then b else a) /\
+  ((b <= 9223372036854775807)%Z -> g2_pow a b = Ok (pow64 a (Z.to_N b))).
+Proof. exact src_arith_helpers. Qed.
+Print Assumptions C09_source_arith_helpers.
+
+Example C09_source_nonvacuous :
+  g2_httpParseRequestLine (zb (bs "GET /chat?x=1 HTTP/1.1"))
+  = Ok (g2_mk_httpRequestLine (zb (bs "GET")) (zb (bs "/chat?x=1")) 1%Z 1%Z, None)
+  /\ g2_httpParseRequestLine (zb (bs "GET /chat HTTP/1.:"))
+     = Ok (g2_mk_httpRequestLine (zb (bs "GET")) (zb (bs "/chat")) 1%Z 0%Z, Some E_ErrMalformedRequest)
+  /\ g2_asciiToInt (zb (bs "9223372036854775808")) = Ok (0%Z, Some E_fmt_Errorf).
+Proof. vm_compute. repeat split; reflexivity. Qed.
